@@ -5,4 +5,4 @@ Extraction Language OCaml.
 Extraction "c06_model.ml"
   Z.add Z.mul Z.opp Z.abs Z.div_eucl Z.sub Z.eqb Z.leb Z.ltb Z.of_nat Z.to_nat
   Base.FILL
-  C06.c06_integrate C06.c06_integrate_cur.
+  C06.c06_integrate C06.c06_integrate_cur C06.c06_mask_sum C06.c06_integrate_grid C06.c06_grun.
